@@ -462,17 +462,5 @@ verif_harness! {
 // instances with 576 calls already need 8.4 - 14 GB.  What is covered for Threefish-1024: the key schedule (tf1024_ks),
 // the MIX leaf for every rotation count (threefish_leaf_mix), and the same generic round code (macro impl_threefish!)
 // as Threefish-256/512, whose W queries pass.  The module t1024 keeps the W functions for native replay / future use.
-//@ harness name=tf1024_enc_d prop=C10,C20 tier=thorough bits=22528 est=1800 mem=28 desc="D: Threefish1024::encrypt_block_u64 == oracle (80 rounds, subkey every 4 rounds, permutation pi, rotation table) run on the crate's own mix (== MIX by threefish_leaf_mix), ARBITRARY subkey table, all blocks; nothing stubbed"
-verif_harness! {
-    name: tf1024_enc_d,
-    bytes: 2816,
-    unwind: 140,
-    prop: |inp| { t1024::enc_d(inp) }
-}
-//@ harness name=tf1024_dec_d prop=C10,C20 tier=thorough bits=22528 est=1800 mem=28 desc="D: Threefish1024::decrypt_block_u64 == oracle decryption run on the crate's own inv_mix (== MIX^-1 by threefish_leaf_mix), ARBITRARY subkey table, all blocks; nothing stubbed"
-verif_harness! {
-    name: tf1024_dec_d,
-    bytes: 2816,
-    unwind: 140,
-    prop: |inp| { t1024::dec_d(inp) }
-}
+// Also tried and dropped: the D query t1024::enc_d (oracle on the crate's own mix, nothing stubbed): 4.8 GB, no verdict
+// after 60 min of SAT solving.
